@@ -125,6 +125,12 @@ func (c *Ctx) Panics(verif string, roots []*ssa.Function, include, armed func(*s
 	sort.Slice(fns, func(i, j int) bool { return core.FnName(fns[i]) < core.FnName(fns[j]) })
 	c.Notes = append(c.Notes, fmt.Sprintf("R-PANIC: %d roots, %d module functions reachable", len(roots), len(fns)))
 	var obs []core.Ob
+	type site struct {
+		ob       core.Ob
+		fn, desc string
+		matched  bool
+	}
+	var sites []*site
 	for _, fn := range fns {
 		if !include(fn) || len(fn.Blocks) == 0 {
 			continue
@@ -145,17 +151,97 @@ func (c *Ctx) Panics(verif string, roots []*ssa.Function, include, armed func(*s
 				ob := core.Ob{Rule: "R-PANIC", Key: key, Pos: c.P.Pos(p.Pos()), Func: core.FnName(fn), Armed: armed(fn),
 					Want: "an explicit panic reachable from a decoder of untrusted bytes is triaged (programmer-error guard / internal assertion / guarded precondition)",
 					Path: chainString(byOrigin[fn])}
-				if site, ok := table[key]; ok {
-					ob.Status = core.Allowed
-					ob.Reason = "class " + site.Class + ": " + site.Reason
-					ob.Got = ob.Reason
-				} else {
-					ob.Status = core.Violated
-					ob.Got = "untriaged panic reachable from " + core.FnName(byOrigin[fn][0])
-				}
-				obs = append(obs, ob)
+				ob.Status = core.Violated
+				ob.Got = "untriaged panic reachable from " + core.FnName(byOrigin[fn][0])
+				sites = append(sites, &site{ob: ob, fn: core.FnName(fn), desc: d})
 			}
 		}
+	}
+	// triage. (1) exact site key. (2) a triaged site whose function was renamed, or whose panic was
+	// moved into a helper of the same package, is recognised by package + panic value; one whose
+	// panic value was reworded by its function. Only table entries whose own site no longer exists
+	// anywhere in the program take part in (2), each at most once, so a panic that is added next to
+	// the triaged ones is still reported.
+	used := map[string]bool{}
+	take := func(st *site, k string) {
+		e := table[k]
+		st.matched, used[k] = true, true
+		st.ob.Status = core.Allowed
+		st.ob.Reason = "class " + e.Class + ": " + e.Reason
+		if k != st.ob.Key {
+			st.ob.Reason += " (triaged as " + k + ")"
+		}
+		st.ob.Got = st.ob.Reason
+	}
+	for _, st := range sites {
+		if _, ok := table[st.ob.Key]; ok {
+			take(st, st.ob.Key)
+		}
+	}
+	// all panic sites of the module (not only the reachable ones) decide whether an entry is orphaned
+	exists := map[string]bool{}
+	for _, fn := range c.Funcs() {
+		cnt := map[string]int{}
+		for _, b := range fn.Blocks {
+			for _, in := range b.Instrs {
+				if p, ok := in.(*ssa.Panic); ok {
+					d := panicDesc(p)
+					cnt[d]++
+					k := fmt.Sprintf("%s#panic(%s)", core.FnName(fn), d)
+					if cnt[d] > 1 {
+						k = fmt.Sprintf("%s#%d", k, cnt[d])
+					}
+					exists[k] = true
+				}
+			}
+		}
+	}
+	var orphans []string
+	for k := range table {
+		if !used[k] && !exists[k] {
+			orphans = append(orphans, k)
+		}
+	}
+	sort.Strings(orphans)
+	split := func(k string) (fn, desc string) {
+		i := strings.Index(k, "#panic(")
+		if i < 0 {
+			return k, ""
+		}
+		d := k[i+len("#panic("):]
+		if j := strings.LastIndex(d, ")"); j >= 0 {
+			d = d[:j]
+		}
+		return k[:i], d
+	}
+	pkgOf := func(fn string) string {
+		if i := strings.Index(fn, ".("); i >= 0 {
+			return fn[:i]
+		}
+		if i := strings.LastIndex(fn, "."); i >= 0 {
+			return fn[:i]
+		}
+		return fn
+	}
+	for pass := 0; pass < 2; pass++ {
+		for _, st := range sites {
+			if st.matched {
+				continue
+			}
+			for _, k := range orphans {
+				if used[k] {
+					continue
+				}
+				efn, edesc := split(k)
+				if (pass == 0 && pkgOf(efn) == pkgOf(st.fn) && edesc == st.desc) || (pass == 1 && efn == st.fn) {
+					take(st, k)
+					break
+				}
+			}
+		}
+	}
+	for _, st := range sites {
+		obs = append(obs, st.ob)
 	}
 	return obs
 }
